@@ -1061,6 +1061,18 @@ def lookahead_skips_comments(run, R="MATCH"):
             kinds.add(st["rv"]["variant"])
     run.check(bool(asks) and "Comment" in kinds, R, R + "|lookahead|skips-comments", g.loc(), "the operand lookahead steps over Comment tokens",
               "find_lookahead_char_index scans raw characters without recognising comments: a block comment before or inside an operand changes where the operand ends (`op ;*c*; -1-2` against `op {x}-{y}` gives `no match`)")
+    # outside comments and strings the scan goes character by character: the literal that ends an operand may be glued to the
+    # operand's last token (`ld 12h` against `ld {x}h`), where a token-wise scan never looks
+    from rules_sym import deep as _deep
+    by_char = False
+    for bi, si, st in g.stmts():
+        if st["k"] == "assign" and st["rv"]["k"] == "binop" and st["rv"]["op"] in ("Add", "AddWithOverflow"):
+            if any("len_utf8(" in _deep(g, o_, 5) for o_ in (st["rv"]["l"], st["rv"]["r"])):
+                by_char = True
+    if any(re.search(r"<impl str>::(char_indices|chars)$", t.get("callee") or "") for _, t in g.calls()):
+        by_char = True      # a walk over the characters of the remaining text
+    run.check(by_char, R, R + "|lookahead|by-characters", g.loc(), "the operand lookahead advances one character at a time outside comments and strings",
+              "find_lookahead_char_index advances token by token only: a literal character glued to the end of an operand token (`ld 12h` against `ld {x}h`, `org 4k, 7`) is never looked at and the instruction finds no match")
     run.check(bool(asks) and "String" in kinds, R, R + "|lookahead|skips-strings", g.loc(), "the operand lookahead steps over String tokens",
               "find_lookahead_char_index scans the characters of string literals: a separator inside a string operand ends the operand (`add \"+\" + 1` against `add {x} + {y}` gives `no match`)")
 
